@@ -273,18 +273,29 @@ func c13Run(c *fw.Case) {
 	// the concurrent run
 	var wg sync.WaitGroup
 	start := make(chan struct{})
+	// the order in which the goroutines finish is an observable of the schedule;
+	// it is sent when a goroutine has nothing left to do, so it orders nothing
+	// inside the queries
+	finished := make(chan int, G)
 	for g := 0; g < G; g++ {
 		wg.Add(1)
-		go func(js []*c13Job) {
+		go func(g int, js []*c13Job) {
 			defer wg.Done()
 			<-start
 			for _, j := range js {
 				j.got, j.gotErr, j.panicked, j.nonEmpty = j.exec()
 			}
-		}(jobs[g])
+			finished <- g
+		}(g, jobs[g])
 	}
 	close(start)
 	wg.Wait()
+	close(finished)
+	order := ""
+	for g := range finished {
+		order += fmt.Sprint(g, ",")
+	}
+	c.SetAdd("goroutine_finish_orders", fmt.Sprintf("%d:%s", G, order))
 	// let detached calls drain before the next case
 	for i := 0; i < 500 && vfEntered.Load() != vfExited.Load(); i++ {
 		sleepMs(1)
